@@ -3,3 +3,4 @@ import Proofs.C01
 import Proofs.C03
 import Proofs.C15
 import Proofs.C19
+import Proofs.C20
